@@ -283,7 +283,38 @@ def c08_cases(run):
         got = res.get("range", res) if isinstance(res, dict) else res
         if got != want:
             violations.append(("binary", case, json.dumps(res), json.dumps(want), "prepareRename behind non-ASCII characters does not answer the UTF-16 range of the identifier"))
-    run.stats_extra["c08_encoding_sessions"] = len(offers)
+    # identifiers with characters beyond ASCII INSIDE them (the lexer accepts a character whose low byte is an ASCII
+    # letter or digit): every reported range of such a name is its UTF-16 range, whichever handler reports it
+    doc2 = "proc main() {\n    var n\u0131: int; var v_\U0001F431: int;\n    n\u0131 := v_\U0001F431 + 1;\n}\n"
+    names = ["n\u0131", "v_\U0001F431"]
+    reqs, wants = [], {}
+    rid = 10
+    for ln, line in enumerate(doc2.split("\n")):
+        for nm in names:
+            k = line.find(nm)
+            if k < 0:
+                continue
+            c0 = len(line[:k].encode("utf-16-le")) // 2
+            c1 = c0 + len(nm.encode("utf-16-le")) // 2
+            for method in ("textDocument/hover", "textDocument/prepareRename"):
+                reqs.append(lc.request(rid, method, {"textDocument": {"uri": URI}, "position": {"line": ln, "character": c0}}))
+                wants[rid] = (method, nm, {"start": {"line": ln, "character": c0}, "end": {"line": ln, "character": c1}})
+                rid += 1
+    msgs = [lc.request(1, "initialize", {"capabilities": {}}), lc.notification("initialized", {}),
+            lc.notification("textDocument/didOpen", {"textDocument": {"uri": URI, "languageId": "spl", "version": 1, "text": doc2}})] + reqs + \
+           [lc.request(3, "shutdown"), lc.notification("exit")]
+    r = lc.run_session([b"".join(lc.frame(m) for m in msgs)], timeout=20)
+    if r["timed_out"] or r["problems"] or r["rc"] != 0:
+        violations.append(("binary", "SESSION names with non-ASCII characters", f"rc={r['rc']} problems={r['problems']} timed_out={r['timed_out']}", "", "session failed"))
+    else:
+        byid = {m.get("id"): m for m in r["messages"] if "id" in m and "method" not in m}
+        for k, (method, nm, want) in wants.items():
+            res = (byid.get(k) or {}).get("result")
+            got = res.get("range", res) if isinstance(res, dict) else res
+            if got != want:
+                violations.append(("binary", f"SESSION names with non-ASCII characters {method} {nm.encode().hex()}", json.dumps(res)[:300], json.dumps(want),
+                                   "the reported range of an identifier with characters beyond ASCII is not its UTF-16 range"))
+    run.stats_extra["c08_encoding_sessions"] = len(offers) + 1
     return [], violations
 
 
@@ -337,16 +368,38 @@ def c19_session(variant):
     return b"".join(lc.frame(m) for m in msgs)
 
 
-SLOW_DOC = "".join("proc p%d(a: int) {\n  var x: int;\n  x := a + %d;\n  printi(x);\n}\n" % (i, i) for i in range(2000)) + "proc main() { }\n"
+def _procs_doc(n):
+    return "".join("proc p%d(a: int) {\n  var x: int;\n  x := a + %d;\n  printi(x);\n}\n" % (i, i) for i in range(n)) + "proc main() { }\n"
+
+
+_SLOW = {}
+
+
+def slow_doc(target_s):
+    """a valid document whose analysis takes about `target_s` seconds on this machine, now (measured with a
+    2000-procedure document first; the analysis time grows at least linearly with the number of procedures)"""
+    if target_s not in _SLOW:
+        import time
+        probe = _procs_doc(2000)
+        msgs = [lc.request(1, "initialize", INIT_PARAMS), lc.notification("initialized", {}),
+                lc.notification("textDocument/didOpen", {"textDocument": {"uri": URI, "languageId": "spl", "version": 1, "text": probe}}),
+                lc.request(2, "textDocument/hover", {"textDocument": {"uri": URI}, "position": {"line": 0, "character": 6}}),
+                lc.request(3, "shutdown"), lc.notification("exit")]
+        t0 = time.time()
+        lc.run_session([b"".join(lc.frame(m) for m in msgs)], timeout=120)
+        dt = max(time.time() - t0, 0.05)
+        n = int(2000 * target_s / dt)
+        _SLOW[target_s] = max(2000, min(n, 60000))
+    return _procs_doc(_SLOW[target_s])
 
 
 def c19_slowdoc_session():
     """a document whose analysis takes seconds, with two requests for it in the same write: they are answered from the
     analysed document however the bytes arrive (never as if the document were unknown)"""
     msgs = [lc.request(1, "initialize", INIT_PARAMS_DIAG), lc.notification("initialized", {}),
-            lc.notification("textDocument/didOpen", {"textDocument": {"uri": URI, "languageId": "spl", "version": 1, "text": SLOW_DOC}}),
+            lc.notification("textDocument/didOpen", {"textDocument": {"uri": URI, "languageId": "spl", "version": 1, "text": slow_doc(7)}}),
             lc.request(2, "textDocument/hover", {"textDocument": {"uri": URI}, "position": {"line": 0, "character": 6}}),
-            lc.request(3, "textDocument/foldingRange", {"textDocument": {"uri": URI}}),
+            lc.request(3, "textDocument/definition", {"textDocument": {"uri": URI}, "position": {"line": 2, "character": 2}}),
             lc.request(4, "shutdown"), lc.notification("exit")]
     return b"".join(lc.frame(m) for m in msgs)
 
@@ -366,19 +419,26 @@ def c19_cases(run):
         flood = variant in ("flood", "huge", "slowdoc")
         data = (c19_huge_session() if variant == "huge" else c19_slowdoc_session() if variant == "slowdoc"
                 else c19_flood_session() if flood else c19_session(variant))
-        base = lc.run_session([data], timeout=60 if variant == "slowdoc" else 20)
+        base = lc.run_session([data], timeout=240 if variant == "slowdoc" else 20)
         if base["timed_out"] or base["problems"] or base["rc"] != 0:
             violations.append(("binary", f"SESSION {variant} unsplit", f"rc={base['rc']} problems={base['problems']} timed_out={base['timed_out']}", "", "baseline session failed"))
             continue
         want = projections(base)
+        if variant == "huge":
+            # the document is analysed whatever its size: its one diagnostic (the undefined 2.2 MiB name) is published
+            diags = [m for m in base["messages"] if m.get("method") == "textDocument/publishDiagnostics"]
+            if not any(d.get("params", {}).get("diagnostics") for d in diags):
+                violations.append(("binary", "SESSION huge unsplit", f"publishDiagnostics notifications: {len(diags)}, none with a diagnostic",
+                                   "the diagnostic for the undefined name", "a large document is not analysed"))
+                continue
         if variant == "slowdoc":
             # what the requests are owed does not depend on how long the analysis in front of them takes: a hover on the
             # name of the first procedure of the open document, one folding range per procedure
             by_id = {m.get("id"): m for m in base["messages"] if "id" in m and "method" not in m}
-            hov, fold = by_id.get(2, {}).get("result"), by_id.get(3, {}).get("result")
-            if not hov or not isinstance(fold, list) or len(fold) != 2001:
-                violations.append(("binary", "SESSION slowdoc unsplit", f"hover={json.dumps(hov)[:200]} folding ranges={len(fold) if isinstance(fold, list) else fold}",
-                                   "a hover for p0 and 2001 folding ranges", "requests written together with a slowly analysed document are answered as if it were not open"))
+            hov, dfn = by_id.get(2, {}).get("result"), by_id.get(3, {}).get("result")
+            if not hov or not dfn:
+                violations.append(("binary", "SESSION slowdoc unsplit", f"hover={json.dumps(hov)[:200]} definition={json.dumps(dfn)[:200]}",
+                                   "a hover for p0 and the declaration of x", "requests written together with a slowly analysed document are answered as if it were not open"))
                 continue
         jobs = []
         stride = 1 if thorough else 7
@@ -413,7 +473,7 @@ def c19_cases(run):
         def one(job):
             kind, chunks, desc = job
             delay = 0.002 if kind in ("delayed3", "per-message") else 0.0
-            return lc.run_session(chunks, timeout=90 if variant == "slowdoc" else 30, delay=delay)
+            return lc.run_session(chunks, timeout=300 if variant == "slowdoc" else 30, delay=delay)
 
         with ThreadPoolExecutor(max_workers=16) as ex:
             results = list(ex.map(one, jobs))
@@ -440,6 +500,7 @@ C20_TEXTS = [
     "",
     "proc {\n",
     "abc",
+    "\ufeffproc main() {\n    var i: int;\n    i := 1;\n}\n",
 ]
 
 
@@ -539,10 +600,24 @@ def c20_cases(run):
         bad = lambda v: "proc main() {\n" + "".join(f"  undefined{v}_{j} := 1;\n" for j in range(nerr)) + "}\n"
         flood = [f"O0={_hex(bad(0))}"] + [f"C0=F:{_hex(bad(v))}" for v in range(1, 200 + 100 * k)] + [f"C0=F:{_hex('proc main() {}' + chr(10))}", "P0"]
         hists.append((flood, True))
+    # batches whose LATER changes put back what stood at their range BEFORE the batch (but not after the earlier changes
+    # of the same batch): every change of a batch refers to the text its predecessor left
+    base_doc = "proc main() {\n  var a: int;\n  a := 1;\n}\n"
+    base_lines = base_doc.split("\n")
+    for _ in range(6 if not thorough else 20):
+        ln = rng.randrange(1, 3)
+        col = rng.randrange(0, len(base_lines[ln]))
+        same = base_lines[ln][col]
+        # the first change puts other characters at that place
+        first = rng.choice([f"R:{ln}:0:{ln}:0:" + _hex("zzzzzzzzzzzzzzzzzzzz\n"), f"R:{ln}:0:{ln}:0:" + _hex("zzzzzzzzzzzzzzzzzzzz")])
+        second = f"R:{ln}:{col}:{ln}:{col + 1}:" + _hex(same)
+        hists.append(([f"O0={_hex(base_doc)}", f"C0={first},{second}", "P0", "C0=R:0:0:0:0:" + _hex(" "), "P0"], True))
     # a document whose analysis takes seconds, with requests pipelined behind its open and behind an edit of it:
     # they are answered from the document as it is after the notifications that precede them, however long that takes
     n_small = len(hists)
     hists.append(([f"O0={_hex(BIG_DOC)}", "H0", "U", "H0", "C0=R:0:0:0:0:" + _hex("// c\n"), "H0", "O1=" + _hex(C20_TEXTS[0]), "H1", "P1", "H0"], True))
+    # ... and one whose analysis takes clearly longer than any plausible "give up" time in front of a request
+    hists.append(([f"O0={_hex(slow_doc(7))}", "H0", "P0", "H0"], True))
     # back-pressure on the broker's inbox: while the large document is analysed, more notifications than the inbox holds
     # pile up for ANOTHER (small) document, then that document is closed and probed: every one of them takes effect,
     # in order (a closed document is forgotten, the edits before the close are not lost)
